@@ -202,6 +202,16 @@ CLAIMED = {
             "the same 810 cases x {import direction, export direction + real post-return}.",
             "Trusted: the ledger (harness/vhost); stack and static memory are not judged.",
             "12.5"),
+    "C07": ("model_checking",
+            "TLA+ ResourceOwn.tla: histories of guest- and host-side resource operations (GEN, all histories up to MaxLen) and the monitor "
+            "of the handle discipline; the real generated Rust bindings for a fixed resource world run natively against a permissive "
+            "logging host, the event log of every history is validated by TLC (Trace_ResourceOwn.tla)",
+            "All 6.4k histories of <= 3 operations (thorough: <= 4) over: imported resource (constructor, method, static, own and borrow "
+            "parameters, own handles inside a record, a list, a tuple and an option) and exported resource (constructor, method, own / "
+            "borrow parameters, results x and option<x>, host drop).",
+            "Trusted: the textual rewrite of the import stubs; a low-address arena so that rep pointers survive the i32 round trip the "
+            "bindings make; error-context handles and fallible constructors are not in the fixed world.",
+            "12.7"),
     "C09": ("exploration",
             "WorldGrammar.tla worlds (TLC GEN) + adversarial-name worlds + corpus -> real Rust generator x all crates/test variants + "
             "--raw-strings -> rustc (host target, -Dwarnings, editions 2021/2024, real wit_bindgen runtime) and ComponentEncoder on the "
@@ -342,7 +352,13 @@ def main():
         f.write("\n")
 
 
-NOT_APPLICABLE = {}
+NOT_APPLICABLE = {
+    "C08": "Not decided by this machinery (DESIGN.md 12.8): it needs the value-level host of C05 (canonical encodings from CallConv.tla) and "
+           "the scheduling host of C18-C23 (CMHost.tla) in one process, i.e. an async-capable spec-driven host executing the Rust backend's "
+           "async glue with real values; that harness was not built. Covered separately: the shared generator's async calling convention "
+           "(C02: AsyncExport/AsyncImport automaton, task.return once, parameter record), the runtime half of an async import (C21), the "
+           "async core surface (C13, C17). Not observed by any check: generate_guest_import_body_async / start_task wiring moving values.",
+}
 
 if __name__ == "__main__":
     main()
